@@ -8,7 +8,7 @@
 EXTENDS BTreeMap, Json
 
 CONSTANTS
-  MaxOps,     \* BFS: explored steps after the preload; walks: use -depth
+  MaxOps,     \* BFS: explored steps after the preload; walks: length of a walk (run with -depth MaxOps + 1)
   Preloads,   \* sequence of scripts (sequences of [o,k,v]); BFS starts from each of them
   Motifs,     \* walk motifs
   PhaseLen,   \* walk: steps per phase
@@ -106,7 +106,9 @@ NextBfs == /\ Len(hist) < Len(Preloads[pre]) + MaxOps
            /\ UNCHANGED <<pre, motif, n>>
 SpecBfs == InitBfs /\ [][NextBfs]_mcvars
 EmitBfs == PrintT(<<"T", ToJson([pre |-> pre, steps |-> hist'])>>)
-PreloadsOk == \A j \in DOMAIN Preloads : ScriptOk(Preloads[j], EmptyMap)
+PreloadsOk == n = 0 /\ \A j \in DOMAIN Preloads : ScriptOk(Preloads[j], EmptyMap)
+\* meta-invariants on the key order, evaluated once (on the initial states)
+OrderOk == Len(hist) > 0 \/ (OrderIsByteOrder(Keys) /\ RleOrderAgrees(Keys))
 
 \* ------------------------------------------------------------------ walks
 \* phases cycle: fill (by motif), churn (anything), drain (deletes in key order: whole leaves become empty), churn
@@ -121,11 +123,11 @@ Lowest(S) == CHOOSE k \in S : \A j \in S : ~KLt(j, k)
 Highest(S) == CHOOSE k \in S : \A j \in S : ~KLt(k, j)
 Above(S) == {k \in S : MaxPresent(m, k)}
 Below(S) == {k \in S : \A j \in Present(m) : KLt(k, j)}
-SamePrefix(k1, k2) == Prefix4(RleExpand(KB[k1])) = Prefix4(RleExpand(KB[k2]))
-\* the largest class of keys sharing one 4-byte prefix hint
-EqPrefixKeys == LET cls(k) == {j \in Keys : KLen[j] <= 8 /\ KLen[k] <= 8 /\ SamePrefix(j, k)}
-                    best == CHOOSE k \in Keys : \A j \in Keys : Cardinality(cls(j)) <= Cardinality(cls(k))
-                IN cls(best)
+P4 == [k \in Keys |-> RlePrefix4(KB[k])]
+ShortKeys == {k \in Keys : KLen[k] <= 8}
+\* the largest class of short keys sharing one 4-byte prefix hint
+PfxClass == [k \in ShortKeys |-> {j \in ShortKeys : P4[j] = P4[k]}]
+EqPrefixKeys == PfxClass[CHOOSE k \in ShortKeys : \A j \in ShortKeys : Cardinality(PfxClass[j]) <= Cardinality(PfxClass[k])]
 
 FillKeys ==
   IF AbsentKeys = {} THEN {}
@@ -141,33 +143,44 @@ DrainKeys ==
               LET edge == {k \in Present(m) : \E j \in AbsentKeys : Rank[j] = Rank[k] + 1 \/ Rank[j] = Rank[k] - 1}
               IN IF edge # {} THEN edge ELSE Present(m)
 
+\* A walk keeps only the operations (cheap candidate states); results and post-states of the whole walk are
+\* computed by StepsOf when the walk is printed.  Keys and values of churn steps are drawn with RandomElement
+\* (one candidate per action instead of |Keys| * |Vals|); the last step of a walk is fixed (a backward scan), so
+\* that exactly one line is printed per walk although TLC evaluates constraints on every candidate successor.
 WalkDo(op) == /\ Enabled(op, m)
               /\ m' = Post(op, m)
-              /\ hist' = <<Step(op, m)>>
+              /\ hist' = Append(hist, op)
               /\ n' = n + 1
               /\ UNCHANGED <<pre, motif>>
+Pick(S) == IF S = {} THEN {} ELSE {RandomElement(S)}
 
-FillIns == Phase = 0 /\ \E k \in FillKeys, v \in ValPool : WalkDo(Op("ins", k, v))
-FillApp == Phase = 0 /\ \E k \in FillKeys, v \in ValPool : WalkDo(Op("app", k, v))
-FillIfAbs == Phase = 0 /\ \E k \in FillKeys, v \in ValPool : WalkDo(Op("ifabs", k, v))
-DrainDel == Phase = 2 /\ \E k \in DrainKeys : WalkDo(Op("del", k, 0))
-DrainProbe == Phase = 2 /\ \E k \in Keys : WalkDo(Op("get", k, 0)) \/ WalkDo(Op("fwd", k, 0))
-ChurnIns == Phase \in {1, 3} /\ \E k \in Keys, v \in ValPool : WalkDo(Op("ins", k, v))
-ChurnIfAbs == Phase \in {1, 3} /\ \E k \in Keys, v \in ValPool : WalkDo(Op("ifabs", k, v))
-ChurnApp == Phase \in {1, 3} /\ \E k \in Keys, v \in ValPool : WalkDo(Op("app", k, v))
-ChurnUpd == Phase \in {1, 3} /\ \E k \in Present(m), v \in ValPool : WalkDo(Op("upd", k, v))
-ChurnUpdAbsent == Phase \in {1, 3} /\ \E k \in AbsentKeys, v \in ValPool : WalkDo(Op("upd", k, v))
-ChurnDel == Phase \in {1, 3} /\ \E k \in Keys : WalkDo(Op("del", k, 0))
-ChurnScan == Phase \in {1, 3} /\ (WalkDo(Op("back", 0, 0)) \/ \E k \in Keys \cup {0} : WalkDo(Op("fwd", k, 0)))
-\* a phase that cannot move (nothing to fill / drain) lets any churn step through
-Stuck == /\ (Phase = 0 /\ \A k \in FillKeys, v \in ValPool : ~Enabled(Op("ins", k, v), m)) \/ (Phase = 2 /\ Present(m) = {})
-         /\ \E k \in Keys, v \in ValPool : WalkDo(Op("ins", k, v))
+FillIns == Phase = 0 /\ \E k \in Pick(FillKeys), v \in Pick(ValPool) : WalkDo(Op("ins", k, v))
+FillApp == Phase = 0 /\ \E k \in Pick(FillKeys), v \in Pick(ValPool) : WalkDo(Op("app", k, v))
+FillIfAbs == Phase = 0 /\ \E k \in Pick(FillKeys), v \in Pick(ValPool) : WalkDo(Op("ifabs", k, v))
+DrainDel == Phase = 2 /\ \E k \in Pick(DrainKeys) : WalkDo(Op("del", k, 0))
+DrainProbe == Phase = 2 /\ \E k \in Pick(Keys) : WalkDo(Op("get", k, 0)) \/ WalkDo(Op("fwd", k, 0))
+ChurnIns == Phase \in {1, 3} /\ \E k \in Pick(Keys), v \in Pick(ValPool) : WalkDo(Op("ins", k, v))
+ChurnIfAbs == Phase \in {1, 3} /\ \E k \in Pick(Keys), v \in Pick(ValPool) : WalkDo(Op("ifabs", k, v))
+ChurnApp == Phase \in {1, 3} /\ \E k \in Pick(Above(AbsentKeys)), v \in Pick(ValPool) : WalkDo(Op("app", k, v))
+ChurnUpd == Phase \in {1, 3} /\ \E k \in Pick(Present(m)), v \in Pick(ValPool) : WalkDo(Op("upd", k, v))
+ChurnUpdAbsent == Phase \in {1, 3} /\ \E k \in Pick(AbsentKeys), v \in Pick(ValPool) : WalkDo(Op("upd", k, v))
+ChurnDel == Phase \in {1, 3} /\ \E k \in Pick(Keys) : WalkDo(Op("del", k, 0))
+ChurnScan == Phase \in {1, 3} /\ (WalkDo(Op("back", 0, 0)) \/ \E k \in Pick(Keys \cup {0}) : WalkDo(Op("fwd", k, 0)))
+\* a phase that cannot move (nothing to fill / drain) lets any insert through
+Stuck == /\ (Phase = 0 /\ AbsentKeys = {}) \/ (Phase = 2 /\ Present(m) = {})
+         /\ \E k \in Pick(Keys), v \in Pick(ValPool) : WalkDo(Op("ins", k, v))
+
+\* always enabled, so that a walk never ends early because every random pick was disabled
+Idle == \E k \in Pick(Keys) : WalkDo(Op("get", k, 0))
 
 InitWalk == /\ pre = 1 /\ m = EmptyMap /\ hist = <<>> /\ motif \in Motifs /\ n = 0
-NextWalk == \/ FillIns \/ FillApp \/ FillIfAbs \/ DrainDel \/ DrainDel \/ DrainProbe
-            \/ ChurnIns \/ ChurnIfAbs \/ ChurnApp \/ ChurnUpd \/ ChurnUpd \/ ChurnUpdAbsent \/ ChurnDel \/ ChurnScan \/ Stuck
+NextWalk == IF n = MaxOps - 1 THEN WalkDo(Op("back", 0, 0))
+            ELSE /\ n < MaxOps - 1
+                 /\ \/ FillIns \/ FillApp \/ FillIfAbs \/ DrainDel \/ DrainDel \/ DrainProbe
+                    \/ ChurnIns \/ ChurnIfAbs \/ ChurnApp \/ ChurnUpd \/ ChurnUpd \/ ChurnUpdAbsent \/ ChurnDel \/ ChurnScan \/ Stuck
+                    \/ Idle
 SpecWalk == InitWalk /\ [][NextWalk]_mcvars
-EmitWalk == PrintT(<<"T", ToJson([w |-> motif, i |-> n', step |-> hist'[1]])>>)
+EmitWalk == n' = MaxOps => PrintT(<<"T", ToJson([w |-> motif, steps |-> StepsOf(hist')])>>)
 
 \* ------------------------------------------------------------------ the universe, printed once
 Universe == [keys |-> KB, order |-> Order, vlen |-> VLen, hints |-> HintModes, klen |-> KLen,
